@@ -421,6 +421,7 @@ class Interp(object):
         self.files = {}
         self.crashfile = None
         self.on_return = None
+        self.gate = None          # scheduler hook: called before every model-level operation
         self.events = []
         self.forest = []          # the interpreter's own record of what it did (C01 oracle)
         self.tnode = {}           # handle -> its shadow node
@@ -560,7 +561,12 @@ class Interp(object):
             self.destinations.addGlobalFields(**self.fields(o[1]))
 
     # -- probes
+    def g(self, c):
+        if self.gate is not None:
+            self.gate(c)
+
     def probe(self, c):
+        self.g(c)
         a = self.eliot.current_action()
         got = None if a is None else self.handle_of.get(id(a), -1)
         self.probes.append([c, got])
@@ -663,6 +669,7 @@ class Interp(object):
         if k == "msg":
             _, t, fs, ser, api = st
             kw = self.fields(fs)
+            self.g(c)
             self.shadow_msg(c, t, fs, ser=ser if api == "typed" else None)
             if api == "typed" and ser is not None:
                 with self.window("msg", c, decl=ser, logged=fs, t=t):
@@ -676,6 +683,7 @@ class Interp(object):
                 self.call("log_message", el.log_message, message_type=type_name(t), **kw)
         elif k == "actlog":
             _, h, t, fs = st
+            self.g(c)
             self.shadow_msg(c, t, fs, h=h)
             self.call("Action.log", self.actions[h].log, message_type=type_name(t), **self.fields(fs))
         elif k == "act":
@@ -689,7 +697,9 @@ class Interp(object):
             (self.forest if pch is None else pch).append(node)
             self.tnode[h] = node
             self.cur_ctx = c
+            self.g(c)
             a = self.start(st)
+            self.g(c)
             if style == "with":
                 try:
                     with a:
@@ -697,6 +707,7 @@ class Interp(object):
                         try:
                             self.probe(c)
                             self.block(body, c)
+                            self.g(c)
                             self.call("add_success_fields", a.add_success_fields, **self.fields(succ))
                         except LoggingRaised:
                             raise
@@ -704,6 +715,7 @@ class Interp(object):
                             rec["exc"] = self.exc_id(e0)
                             raise
                         finally:
+                            self.g(c)
                             self.pop(c)
                             rec["finished"] = True
                             w = self.window("end", c, decl=(sers or {}).get("success"), logged=succ, t=t, h=h,
@@ -724,8 +736,10 @@ class Interp(object):
                     try:
                         self.probe(c)
                         self.block(body, c)
+                        self.g(c)
                         self.call("add_success_fields", a.add_success_fields, **self.fields(succ))
                     finally:
+                        self.g(c)
                         self.pop(c)
                 try:
                     if style == "ctx":
@@ -741,6 +755,7 @@ class Interp(object):
                     rec["exc"] = self.exc_id(e)
                 self.probe(c)
                 rec["finished"] = True
+                self.g(c)
                 with self.window("end", c, decl=(sers or {}).get("success"), logged=succ, t=t, h=h,
                                  failed=exc is not None, typed=sers is not None):
                     self.call("finish", a.finish, exc)
@@ -759,6 +774,7 @@ class Interp(object):
                 self.check_same(e, "try")
         elif k == "tb":
             e = self.make_exn(st[1])
+            self.g(c)
             self.shadow_msg(c, 2, [], ser=None)
             try:
                 raise e
@@ -834,7 +850,9 @@ class Interp(object):
                     self.probe(c)
                     self.block(body, c)
                 finally:
+                    self.g(c)
                     self.pop(c)
+            self.g(c)
             if how == "run":
                 a.run(f)
             else:
@@ -842,12 +860,14 @@ class Interp(object):
                     f()
         elif k == "finish_again":
             exc = None if st[2] is None else self.make_exn(st[2])
+            self.g(c)
             if st[1] in self.actions:   # an action whose statement never ran does not exist (model: no-op)
                 self.call("finish", self.actions[st[1]].finish, exc)
         elif k == "rawwrite":
             _, t, fs, ser = st
             import copy
             from eliot import Logger
+            self.g(c)
             d = self.fields(fs)
             before = dict(d)
             serializer = None if ser is None else self.message_type(t, ser)._serializer
